@@ -166,6 +166,16 @@ def getDeleted (g : Adj) (tplDelete : List Nat) (mapping : List (Nat × Nat)) : 
       | .error e => .error e
       | .ok st => .ok (toDel ++ st.delete)
 
+/-- executable test of "undirected": every listed neighbour lists the atom back -/
+def symmB (g : Adj) : Bool :=
+  g.all fun p => p.2.all fun b => match g.lookup b with
+    | some nb => nb.contains p.1
+    | none => false
+
+/-- executable test of "closed": every listed neighbour is a key -/
+def closedB (g : Adj) : Bool :=
+  g.all fun p => p.2.all fun b => (g.lookup b).isSome
+
 /-! ## templates -/
 
 inductive RKind where
@@ -490,5 +500,17 @@ def collisionRemap (new : Mol) (ignored : List Nat) (order : List Nat) : Except 
   else if !(order.all collision.contains && collision.all order.contains && order.length == collision.length) then
     .error (.valueError "harness: order is not a permutation of the collision set")
   else remap new (zipCount order (max (maxOf ignored) (maxOf new.ids) + 1))
+
+/-- one match of `Reactor._single_stage` up to (not including) `split()`:
+`united_chosen = reduce(or_, chosen)`, `new = _patcher(united_chosen, mapping)` (`mapping` = the per-pattern matches merged
+by `dict.update`), then the collision remap against the numbers of the ignored molecules. -/
+def singleStage (t : Template) (tplDelete : List Nat) (chosen : List Mol) (mapping : List (Nat × Nat))
+    (ignored order : List Nat) : Except PyErr Mol :=
+  match unionAll chosen with
+  | .error e => .error e
+  | .ok u =>
+    match patcher u t tplDelete mapping with
+    | .error e => .error e
+    | .ok p => collisionRemap p.mol ignored order
 
 end ChythonModel.Model.C16
